@@ -312,6 +312,46 @@ pub fn minimal_widths(cci: u128, tsi: u64, toi: u128) -> Option<(u8, u8, u8, u8)
     best.map(|(_, s, o, h)| (c, s, o, h))
 }
 
+/// every legal width flag choice `(c, s, o, h)` for the values (each value fits its field)
+pub fn legal_widths(cci: u128, tsi: u64, toi: u128) -> Vec<(u8, u8, u8, u8)> {
+    let mut v = Vec::new();
+    for c in 0..4u8 {
+        for s in 0..2u8 {
+            for o in 0..4u8 {
+                for h in 0..2u8 {
+                    if fits(cci, 32 * (c as usize + 1))
+                        && fits(tsi as u128, 32 * s as usize + 16 * h as usize)
+                        && fits(toi, 32 * o as usize + 16 * h as usize)
+                    {
+                        v.push((c, s, o, h));
+                    }
+                }
+            }
+        }
+    }
+    v
+}
+
+/// Re-serialise the LCT header of datagram `d` with other width flags `(c, s, o, h)`: version, PSI, A, B,
+/// codepoint, CCI, TSI, TOI, the extension list and the octets after the header are unchanged, the
+/// reserved bits become 0 and HDR_LEN is recomputed.  `None` if `d` does not decode, a flag is out of
+/// range, a value does not fit the requested width or the new header is longer than 255 words.
+/// (`Flute.Spec.Wire.rewidth`, driver op `rewidth`.)
+pub fn rewidth(d: &[u8], c: u64, s: u64, o: u64, h: u64) -> Option<Vec<u8>> {
+    let f = decode_lct(d)?;
+    if c > 3 || s > 1 || o > 3 || h > 1 {
+        return None;
+    }
+    let old_len = 4 * f.hdr_len as usize;
+    let g = LctFields { c: c as u8, s: s as u8, o: o as u8, h: h as u8, res: 0, hdr_len: 0, ..f };
+    if !fits(g.cci, g.cci_bits()) || !fits(g.tsi as u128, g.tsi_bits()) || !fits(g.toi, g.toi_bits()) || g.hdr_words() > 255 {
+        return None;
+    }
+    let mut out = encode_lct(&g);
+    out.extend_from_slice(&d[old_len..]);
+    Some(out)
+}
+
 // ------------------------------------------------------------------------------------------------
 // EXT_FDT, EXT_CENC, EXT_TIME
 // ------------------------------------------------------------------------------------------------
